@@ -2,7 +2,7 @@
 import re
 
 from .. import hirq, nf, panic
-from ..rulelib import tree_of, user_nodes, def_exprs, short
+from ..rulelib import tree_of, user_nodes, def_exprs, short, before
 
 P = "setsketcher::SetSketchParams"
 DUMP = P + "::dump_json"
@@ -33,6 +33,67 @@ def open_chain(fn):
             root = nf.nf(cur)
             return list(reversed(chain)), root, nf.nf(n["args"][0]), n
     return None, None, None, None
+
+
+WHOLE_FILLERS = ("read_to_string", "read_to_end")
+PARTIAL_FILLERS = ("read", "read_exact", "read_buf", "read_vectored", "read_line", "read_until")
+WHOLE_CALLS = ("std::fs::read_to_string", "std::fs::read", "std::io::read_to_string")
+
+
+def whole_input(ctx, rfn, reader):
+    """the deserialiser is given the WHOLE file: from_reader on the opened file (possibly buffered, never `.take(n)`), or
+    from_str / from_slice on a buffer filled to end of file (read_to_string / read_to_end / fs::read*) and passed unsliced.
+    A single `read(&mut buf)` or a fixed-size buffer hands over a prefix: a file longer than the buffer is reported torn
+    (or, cut at a record boundary, parses to different parameters)."""
+    from ..rulelib import resolver_of
+    R = resolver_of(rfn)
+    t = tree_of(rfn)
+    arg = nf.strip(reader["args"][0])
+    shown = nf.nf(arg, False, res=R)
+    if reader["callee"] == "serde_json::from_reader":
+        if re.search(r"\btake\(|\bbytes\(|\bchain\(", shown):
+            ctx.violation("JSON", RELOAD, "reader input not the whole file", hirq.loc(reader), "from_reader is given `%s`: a bounded or transformed view of the file" % shown[:100])
+        else:
+            ctx.ok("JSON", RELOAD, "from_reader consumes the reader `%s` to end of input" % shown[:60], hirq.loc(reader))
+        return
+    # from_str / from_slice
+    cur = arg
+    while cur["k"] == "MethodCall" and cur["name"] in ("as_str", "as_slice", "as_bytes", "as_ref", "trim", "trim_end") and not cur["args"]:
+        cur = nf.strip(cur["recv"])
+    if cur["k"] == "Path" and "local" in cur["res"]:
+        d = R.lookup(cur["res"]["local"], cur)
+        if d is not None:
+            cur2 = nf.strip(d)
+            while cur2["k"] in ("MethodCall", "Match") and (cur2.get("name") in ("unwrap", "expect", "map_err", "as_str", "as_slice") or cur2.get("src") == "TryDesugar"):
+                cur2 = nf.strip(cur2["recv"] if cur2["k"] == "MethodCall" else (cur2["e"]["args"][0] if cur2["e"]["k"] == "Call" and cur2["e"].get("args") else cur2["e"]))
+            if cur2["k"] == "Call" and cur2.get("callee", "") in WHOLE_CALLS:
+                ctx.ok("JSON", RELOAD, "parsed text is the result of %s" % cur2["callee"], hirq.loc(reader))
+                return
+    if cur["k"] != "Path" or "local" not in cur["res"]:
+        if cur["k"] == "Call" and cur.get("callee", "") in WHOLE_CALLS:
+            ctx.ok("JSON", RELOAD, "parsed text is the result of %s" % cur["callee"], hirq.loc(reader))
+            return
+        ctx.violation("JSON", RELOAD, "reader input not the whole file", hirq.loc(reader),
+                      "%s is given `%s`: expected a buffer filled to end of file and passed whole (a slice or sub-range is a prefix of the record)" % (reader["callee"], shown[:100]))
+        return
+    lid, name = cur["res"]["local"], cur["res"]["name"]
+    fills = []
+    fname = {}
+    for x in user_nodes(rfn):
+        if x["k"] in ("MethodCall", "Call") and x["args"]:
+            nm = x["name"] if x["k"] == "MethodCall" else short(x.get("callee", ""))
+            a0 = nf.strip(x["args"][-1])
+            if a0["k"] == "Path" and a0["res"].get("local") == lid and nm in WHOLE_FILLERS + PARTIAL_FILLERS:
+                fills.append(x)
+                fname[id(x)] = nm
+    bad = [x for x in fills if fname[id(x)] in PARTIAL_FILLERS]
+    good = [x for x in fills if fname[id(x)] in WHOLE_FILLERS]
+    if good and not bad and all(before(rfn, g, reader) for g in good):
+        ctx.ok("JSON", RELOAD, "parsed buffer `%s` is filled by %s" % (name, fname[id(good[0])]), hirq.loc(reader))
+    else:
+        ctx.violation("JSON", RELOAD, "reader input not the whole file", hirq.loc(bad[0] if bad else reader),
+                      "%s parses `%s`, filled by %s: expected read_to_string / read_to_end (or fs::read*) before the parse — one `read` call or a "
+                      "fixed-size buffer returns a prefix of the file" % (reader["callee"], shown[:60], [fname[id(x)] for x in fills] or "nothing recognised"))
 
 
 def run(ctx, facts):
@@ -174,6 +235,7 @@ def run(ctx, facts):
         ctx.violation("JSON", DUMP, "writer", hirq.loc(dfn), "expected exactly one serde_json::to_writer(.., self); found %d" % len(writers))
     if len(readers) == 1 and any(P in sub for sub in readers[0].get("substs", [])):
         ctx.ok("JSON", RELOAD, "read by %s into SetSketchParams (whole input, trailing data is an error)" % readers[0]["callee"], hirq.loc(readers[0]))
+        whole_input(ctx, rfn, readers[0])
         # returned unchanged
         body = rfn["hir"]
         tail = nf.strip(body["expr"]) if "expr" in body else None
